@@ -3,7 +3,8 @@ from vlib import core
 
 ASSUME = [
     "zero-amplitude comparison is bit-for-bit on the displacement table and on the grid after apply(), for every step",
-    "the applied kick is recomputed by the oracle in double from the recorded (phase, amplitude) pair with the documented formulas (linear: A*tan(angle)*((x0-x) - (phase-phi_s)/(k_RF*dz)); sinusoidal: revpart*(V0 - A*V*sin(k_RF*q+phase))/dE_cell); tolerance 2e-5 of the largest kick",
+    "the kick applied in step k is observed through the grid it produced: a static RF map of the same parameters, set to the (phase, amplitude) recorded for step k and applied to the same input, must give the same grid bit for bit (hash over all cells)",
+    "that kick table is recomputed by the oracle in double from the recorded (phase, amplitude) pair with the documented formulas (linear: A*tan(angle)*((x0-x) - (phase-phi_s)/(k_RF*dz)); sinusoidal: revpart*(V0 - A*V*sin(k_RF*q+phase))/dE_cell); tolerance 2e-5 of the largest kick",
     "pure phase modulation: entries - phi_s = A*sin(2 pi f dt k) with a tolerance that grows with the accumulated single-precision phase (4e-7 per radian)",
     "about one case in a hundred is a pure modulation of 40000-300000 steps on a 16x16 grid: the recorded frequency must not drift (same tolerance law)",
     "apply() is never called more often than the number of steps given to the constructor (main's contract)",
@@ -17,7 +18,7 @@ def run(ctx):
     core.run_harness(ctx, "c19", 20000 if th else 960)
     core.run_harness(ctx, "c19", 1500 if th else 96, variant="asan")
     ctx.min_events = {"applies": 10000, "zero_amplitude_steps": 3000, "kicks_compared": 100000,
-                      "modulation_entries_checked": 3000, "flushes": 1000, "long_modulation_runs": 3}
+                      "modulation_entries_checked": 3000, "flushes": 1000, "long_modulation_runs": 3, "steps_compared_with_nonzero_result": 5000}
     try:
         from checks import c19_prog
         c19_prog.run(ctx)
